@@ -59,6 +59,9 @@ type Case struct {
 	Pad      int  `json:"pad_bytes"`
 	Lock     uint `json:"lock"`
 	CNR      uint `json:"cnr"`
+	// Grid (via decoder): the cell sits in a message of nine satellites and four signals with all 36 cells
+	// present (a cell mask longer than 32 bits), as the last satellite's cell of the signal under test.
+	Grid bool `json:"grid_9x4"`
 }
 
 func rat(n, d int64) *big.Rat { return big.NewRat(n, d) }
@@ -135,27 +138,54 @@ func build(c Case) (*cellAPI, error) {
 			Multiple: c.Multiple, Pad: c.Pad,
 			Sats: []enc.SatCell{{Whole: c.Whole, Frac: c.Frac, RangeRate: c.RoughRate, ExtInfo: c.ExtInfo & 15}},
 			Sigs: []enc.SigCell{{RangeDelta: c.RangeDelta, PhaseDelta: c.PhaseDelta, Lock: lock, CNR: cnr, RateDelta: c.FineRate}}}
+		si, sj := 0, 0 // where the cell under test is in the decoded message
+		if c.Grid {
+			m.SatMask = 0xFF80000000000000 // satellites 1..9
+			others := 0
+			for id := uint(1); id <= 32 && others < 3; id++ {
+				if id != c.SignalID {
+					m.SigMask |= 1 << (32 - id)
+					others++
+					if id < c.SignalID {
+						sj++
+					}
+				}
+			}
+			si = 8
+			m.CellMask = make([]bool, 36)
+			for i := range m.CellMask {
+				m.CellMask[i] = true
+			}
+			sat, sig := m.Sats[0], m.Sigs[0]
+			m.Sats, m.Sigs = make([]enc.SatCell, 9), make([]enc.SigCell, 36)
+			for i := range m.Sats {
+				m.Sats[i] = sat
+			}
+			for i := range m.Sigs {
+				m.Sigs[i] = sig
+			}
+		}
 		if c.MSM7 {
 			m.Type += 3
 			d, err := msg7.GetMessage(m.Frame(), lv)
 			if err != nil {
-				return nil, fmt.Errorf("decoder rejected the one-cell message: %v", err)
+				return nil, fmt.Errorf("decoder rejected the message: %v", err)
 			}
-			if len(d.Signals) != 1 || len(d.Signals[0]) != 1 {
-				return nil, fmt.Errorf("decoder did not return exactly one signal cell")
+			if len(d.Signals) <= si || len(d.Signals[si]) <= sj || d.Signals[si][sj].ID != c.SignalID {
+				return nil, fmt.Errorf("decoder did not return the signal cell of satellite %d, signal %d (grid %v)", si+1, c.SignalID, c.Grid)
 			}
-			cell := &d.Signals[0][0]
-			return &cellAPI{cell.RangeInMetres, cell.PhaseRange, cell.PhaseRangeRate, cell.PhaseRangeRateDoppler, cell.GetAggregateRange, cell.GetAggregatePhaseRange, cell.GetAggregatePhaseRangeRate, cell.String, d.Satellites[0].String, cell.Wavelength}, nil
+			cell := &d.Signals[si][sj]
+			return &cellAPI{cell.RangeInMetres, cell.PhaseRange, cell.PhaseRangeRate, cell.PhaseRangeRateDoppler, cell.GetAggregateRange, cell.GetAggregatePhaseRange, cell.GetAggregatePhaseRangeRate, cell.String, d.Satellites[si].String, cell.Wavelength}, nil
 		}
 		d, err := msg4.GetMessage(m.Frame(), lv)
 		if err != nil {
-			return nil, fmt.Errorf("decoder rejected the one-cell message: %v", err)
+			return nil, fmt.Errorf("decoder rejected the message: %v", err)
 		}
-		if len(d.Signals) != 1 || len(d.Signals[0]) != 1 {
-			return nil, fmt.Errorf("decoder did not return exactly one signal cell")
+		if len(d.Signals) <= si || len(d.Signals[si]) <= sj || d.Signals[si][sj].ID != c.SignalID {
+			return nil, fmt.Errorf("decoder did not return the signal cell of satellite %d, signal %d (grid %v)", si+1, c.SignalID, c.Grid)
 		}
-		cell := &d.Signals[0][0]
-		return &cellAPI{cell.RangeInMetres, cell.PhaseRange, nil, nil, cell.GetAggregateRange, cell.GetAggregatePhaseRange, nil, cell.String, d.Satellites[0].String, cell.Wavelength}, nil
+		cell := &d.Signals[si][sj]
+		return &cellAPI{cell.RangeInMetres, cell.PhaseRange, nil, nil, cell.GetAggregateRange, cell.GetAggregatePhaseRange, nil, cell.String, d.Satellites[si].String, cell.Wavelength}, nil
 	}
 	if c.MSM7 {
 		s := sat7.New(1, c.Whole, c.Frac, c.ExtInfo&15, int(c.RoughRate), lv)
@@ -313,6 +343,9 @@ func check(c Case, o *stats.Obs) error {
 	if c.ViaDecoder {
 		o.Class("via-decoder")
 	}
+	if c.Grid && c.ViaDecoder {
+		o.Class("via-decoder/9x4-grid")
+	}
 	if c.MSM7 {
 		o.Class("msm7")
 	} else {
@@ -336,6 +369,13 @@ func signedField(t *rapid.T, width int, label string, lo int64) int64 {
 		return -1
 	case 4:
 		return minV + 1
+	case 5:
+		// the invalid markers of the fields of other widths (-2^13 ... -2^23): ordinary values here
+		v := -(int64(1) << uint(rapid.SampledFrom([]int{13, 14, 19, 21, 23}).Draw(t, label+"OtherMarker")))
+		if v > minV && v >= lo {
+			return v
+		}
+		return minV + 2
 	default:
 		if lo > max {
 			lo = max
@@ -406,6 +446,7 @@ func gen1(t *rapid.T) Case {
 	c.Pad = rapid.SampledFrom([]int{0, 0, 1, 2, 3, 4, 7, 8, 9, 22}).Draw(t, "pad")
 	c.Lock = uint(rapid.IntRange(0, 1023).Draw(t, "lock"))
 	c.CNR = uint(rapid.IntRange(0, 1023).Draw(t, "cnr"))
+	c.Grid = c.ViaDecoder && rapid.Bool().Draw(t, "grid")
 	c.Debug = rapid.Bool().Draw(t, "debug")
 	return c
 }
